@@ -3,6 +3,7 @@ import RbV.Ref.AvlCheck
 import RbV.Model.AvlProofs
 import RbV.Model.AMapProofs
 import RbV.Model.IitIndex
+import RbV.Model.DumpProofs
 /-!
 # C07 — interval trees and the annotation map report exactly the overlapping entries; the AVL tree stays balanced
 
@@ -77,6 +78,23 @@ example : checkAVL (.node (.node .nil ⟨1, 9, 0⟩ 9 1 .nil) ⟨2, 3, 0⟩ 9 2 
 /-- a stale `max` after a rotation is caught -/
 example : checkAVL (.node (.node .nil ⟨1, 9, 0⟩ 9 1 .nil) ⟨2, 3, 0⟩ 3 2 (.node .nil ⟨4, 5, 0⟩ 5 1 .nil)) 3 = false := by
   decide
+
+/-- the driver's `rebuild` inverts the hook's pre-order dump format: the tree that `checkAVL` is applied to is the
+tree that was dumped (payload data is not dumped) … -/
+theorem dump_rebuild (t : Tree) (h : t ≠ .nil) :
+    Drv.C07.rebuild ((Drv.C07.toDNodes t 0).length + 1) 0 (Drv.C07.toDNodes t 0) = some (Drv.C07.eraseData t, []) := by
+  have hlen : ∀ (t : Tree) (d : Nat), (Drv.C07.toDNodes t d).length = size t := by
+    intro t
+    induction t with
+    | nil => intro d; rfl
+    | node l e mx hh r ihl ihr =>
+      intro d; rw [Drv.C07.toDNodes_node]; simp [size, ihl, ihr]; omega
+  have := Drv.C07.rebuild_dump t 0 [] ((Drv.C07.toDNodes t 0).length + 1) h (by rw [hlen]; omega)
+  simpa using this
+
+/-- … and the check does not depend on the payload data -/
+theorem check_ignores_data (t : Tree) (n : Nat) : checkAVL (Drv.C07.eraseData t) n = checkAVL t n :=
+  Drv.C07.checkAVL_eraseData t n
 
 /-! ## mirror model of the AVL tree: every insertion history -/
 
@@ -162,6 +180,13 @@ theorem amap_insert (m : AMap) (r : Nat) (e : Entry) (hw : m.WF) (he : e.lo < e.
     (m.insertAt r e).WF ∧ ((m.insertAt r e).storedAt r').Perm ((if r = r' then [e] else []) ++ m.storedAt r') :=
   ⟨AMap.wf_insertAt m r e hw he, AMap.storedAt_insertAt m r e r'⟩
 
+/-- non-vacuity of `amap_find_correct`: a well-formed two-id map built with `amap_insert` -/
+example : ((AMap.insertAt (AMap.insertAt [] 1 ⟨2, 5, 7⟩) 0 ⟨2, 5, 8⟩).find 1 ⟨4, 6⟩).Perm [⟨2, 5, 7⟩] := by
+  have w0 : AMap.WF [] := ⟨by simp, by intro p hp; simp at hp⟩
+  have w1 := (amap_insert [] 1 ⟨2, 5, 7⟩ w0 (by decide) 0).1
+  have w2 := (amap_insert _ 0 ⟨2, 5, 8⟩ w1 (by decide) 0).1
+  exact (amap_find_correct _ 1 ⟨4, 6⟩ w2 (by decide)).trans (by decide)
+
 example : AMap.storedAt (AMap.insertAt (AMap.insertAt (AMap.insertAt [] 1 ⟨2, 5, 7⟩) 0 ⟨2, 5, 8⟩) 1 ⟨4, 6, 9⟩) 1
     = [⟨2, 5, 7⟩, ⟨4, 6, 9⟩] := by decide
 
@@ -206,6 +231,19 @@ theorem iit_history_perm (ops : List AOp) (q : Query) (l : List Entry) (h : (run
   split at h
   · cases h; exact hp.filter _
   · cases h
+
+open RbV.Iit in
+/-- non-vacuity: the hypotheses of `iit_find_correct` are met by what `iit_index_establishes` delivers on a concrete
+array of 5 cells (n not a power of two, stale `max` fields, the farthest-reaching interval last) -/
+example :
+    let a0 : List Cell := [⟨⟨0, 2, 0⟩, 0⟩, ⟨⟨1, 3, 1⟩, 99⟩, ⟨⟨2, 3, 2⟩, 0⟩, ⟨⟨2, 4, 3⟩, -5⟩, ⟨⟨3, 50, 4⟩, 0⟩]
+    let r := indexCore a0 0
+    findLoop r.1 r.1.length ⟨49, 50⟩ [⟨r.2, (1 <<< r.2) - 1, false⟩] = [⟨3, 50, 4⟩] := by
+  intro a0 r
+  have hs : SortedC a0 := by unfold SortedC; decide
+  obtain ⟨h1, h2, h3, h4⟩ := iit_index_establishes a0 0 hs
+  rw [iit_find_correct r.1 r.2 ⟨49, 50⟩ h2 h3 h4, h1]
+  decide
 
 open RbV.Iit in
 example : endsIndexed [AOp.ins ⟨1, 2, 0⟩, .index, .ins ⟨0, 9, 1⟩] false = false ∧
